@@ -235,6 +235,10 @@ def check_block(case):
         cls.append("nt:block-with-segwit-tx")
     if case.get("dups"):
         cls.append("nt:block-dup-tx")
+    feats = {x for t in txs for x in gen_tx.features(t)}
+    for x in ("wit-item>=253", "script>=253", "script>=65536", "wit-item>=65536"):
+        if x in feats:
+            cls.append("nt:block-tx-" + x)
     if not cls:
         cls.append("single-legacy-tx")
     prev, mr, nbits = bx(hd["prev"]), bx(hd["merkle"]), bx(hd["bits"])
@@ -272,6 +276,9 @@ def check_block(case):
 def block_cases(draw, thorough):
     n = draw(st.sampled_from([1, 1, 2, 3, 5, 8])) if not thorough else draw(st.one_of(st.integers(1, 8), st.sampled_from([20, 50])))
     txs = [draw(gen_tx.tx_case("small", max_io=2)) for _ in range(min(n, 8))]
+    if draw(st.integers(0, 2)) == 0:
+        # one transaction from the boundary-length grammar (scripts / witness items of 253+ and 65536+ bytes) at any position
+        txs[draw(st.integers(0, len(txs) - 1))] = draw(gen_tx.tx_case("big", shapes=["few"]))
     dups = [draw(st.integers(0, 7)) for _ in range(max(0, n - 8))]
     if draw(st.integers(0, 3)) == 0:
         dups.append(draw(st.integers(0, 7)))
@@ -366,7 +373,7 @@ def mine_cases(draw):
         "height": draw(st.sampled_from([0, 1, 15, 16, 17, 127, 128, 148, 149, 150, 299, 300]) | st.integers(0, 100000)),
         "prev": draw(st.binary(min_size=32, max_size=32)).hex(),
         "time": draw(st.integers(1, 2**31)),
-        "mempool": [draw(gen_tx.tx_case("small", max_io=2)) for _ in range(n)],
+        "mempool": [draw(gen_tx.tx_case("small", max_io=2)) if draw(st.integers(0, 5)) else draw(gen_tx.tx_case("full", shapes=["few"])) for _ in range(n)],
         "addr": rb58.check_encode(b"\x6f" + draw(st.binary(min_size=20, max_size=20))).hex(),
     }
 
@@ -380,7 +387,7 @@ def targets(tier):
         Target("coinbase", check_coinbase, strategy=lambda tier: coinbase_cases(), budget={"quick": 6000, "thorough": 120000},
                required=["nt:script-101", "nt:script-100", "nt:with-commitment", "reward:over", "reward:half"]),
         Target("block", check_block, strategy=lambda tier: block_cases(thorough), budget={"quick": 1500, "thorough": 30000},
-               required=["nt:block>=2-txs", "nt:block-with-segwit-tx", "nt:block-dup-tx"]),
+               required=["nt:block>=2-txs", "nt:block-with-segwit-tx", "nt:block-dup-tx", "nt:block-tx-wit-item>=253", "nt:block-tx-script>=253", "nt:block-tx-script>=65536", "nt:block-tx-wit-item>=65536"]),
         Target("mine-block", check_mine, strategy=lambda tier: mine_cases(), budget={"quick": 300, "thorough": 6000},
                required=["nt:mine-with-segwit"]),
     ]
